@@ -201,7 +201,7 @@ func TestVP_C19_round_machine(t *testing.T) {
 	c := kit.New(t, "C19", "rapid state machine on a CacheRound: offers (validateSnapshot add=true, or ValidateSnapshot then add as the chain does) with timestamps anchored at base/start/end/earlier offers/day boundary plus {0,±1,±2,±gap/2,±(gap-1),±gap,±(gap+1),noise}, transaction sets drawn partly from already used hashes, identical re-offers and reused hashes; close = Gap()+asFinal(); non-trivial = round with >=3 accepted and >=1 rejected; distinct by offered (timestamp,verdict) sequence")
 	c.Require("accepted>=3&rejected>=1", "rejected", "close-nonempty", "reject:gap", "reject:day", "reject:dup-ts-or-hash", "reject:tx", "span>gap/2")
 	c.Assume("timestamps stay below 2^63 ns (callers bound snapshot time by the clock); the uint64 wrap of start+gap near 2^64 is outside the domain")
-	kit.SetChecks(kit.N(5000, 120000))
+	kit.SetChecks(kit.N(3000, 120000))
 	kit.SetSteps(40)
 	gap := config.SnapshotRoundGap
 	rapid.Check(t, func(t *rapid.T) {
